@@ -228,6 +228,10 @@ func main() {
 	distinct := DistinctSet{}
 	var ms runtime.MemStats
 	for i := 0; i < cfg.N; i++ {
+		if len(st.OracleFailures) >= 6 {
+			st.Count("stopped-early-after-failures")
+			break // every failing case costs its watchdogs; six precise failures are enough
+		}
 		lim := uint32(PickLen(r, []int{4096, 65536}))
 		erpc.SetReadLimit(1 << 24)
 		s, class := genStream(r, pf, callName, pushName, lim, st)
